@@ -45,3 +45,18 @@ register('C12', 'E1', 'pairs of executions (max f / min -f) under the same choic
 register('C15', 'E1+E3', SW[1] + ' with per-cycle deep snapshots; exhaustive hand-built histories for the utilities',
          'evolution[k] equals an independent deep snapshot taken after cycle k on every explored execution; utilities agree with a direct ranking for all ranks and iteration subsets on hand-built histories and on every d=0 result.',
          'reporting contract = (position, cost, fitness); results without NaN costs', '3 C15')
+register('C08', 'E1', 'enumeration of call histories (event sequences, |H| <= 2) with a differential oracle: probe run on the used instance vs on a fresh instance under the same choice list',
+         'For every optimizer and every history over 7 earlier-run events (same/other stop criterion, other task, other direction, other weights): equal results, equal canonical instance state at return, and the per-run monitors hold on the reused instance.',
+         'reconfiguration between runs through set_config_parameters; state compared at return only', '3 C08')
+register('C13', 'E3', 'bounded-exhaustive enumeration of variable definitions x candidate values against the domain laws; randomize() under every RNG answer',
+         'All bound pairs over a 6-value alphabet, choice lists up to length 3 (4) over 6 heterogeneous values, binary sizes -1..3, permutation item lists up to length 4 x all 5^n value vectors: membership, identity on members, idempotence, decode consistency, rejection of invalid definitions.',
+         'NaN excluded; alphabets in mc/props/c13.py', '3 C13')
+register('C14', 'E3', 'bounded-exhaustive enumeration of variable lists (length 1..3 over 11 prototypes) against a reference model built by explicit loops',
+         '1463 tasks: dimension, bounds, random solutions under every RNG answer, correction of every vector over a 5-value per-coordinate alphabet, decoding of every corrected vector.',
+         'full product for dimension <= 4 (5 thorough), one-coordinate-at-a-time above (reported as capped)', '3 C14')
+register('C19', 'E3+E4', 'exhaustive ParameterGrid laws; ALL score tables through the real HyperTuner.execute/resolve on a scripted optimizer with the model process pool under every trial execution order; conformance on the real pool',
+         'Every grid point evaluated exactly once per trial with its own parameters; best_parameters optimal for the mean of the logged scores in the task direction; best_score equals it; resolve() uses them.',
+         'score alphabet {-1,0,1,2}; G <= 3 (4) points, T <= 2 (3) trials', '3 C19')
+register('C20', 'E3+E4', 'exhaustive enumeration of (n, m, modes shape, mode values, n_trials) through the real Multitask on scripted optimizers with the model pools',
+         'Exactly n_trials runs per (algorithm, task) pair with the designated mode for all four documented shapes; unknown modes rejected at construction; table shapes; exported directory tree.',
+         'n, m <= 3; 3x3 per-pair shape restricted to <= 2 non-serial entries in the quick tier', '3 C20')
